@@ -41,7 +41,7 @@ def main (args : List String) : IO UInt32 := do
   | ["C05"] => loopState stdin stdout C05.step C05.St.init; return 0
   | ["C16"] => loop stdin stdout C16.step; return 0
   | ["C06"] => loopState stdin stdout C06.stepAll C06.DState.init; return 0
-  | ["C08"] => loopState stdin stdout C08.step (RedisVerif.Shard.init 0 false); return 0
+  | ["C08"] => loopState stdin stdout C08.stepAll C08.DState.init; return 0
   | ["C01"] | ["C17"] => loopState stdin stdout C01.stepLine RedisVerif.Redis.init; return 0
   | ["C15"] => loop stdin stdout C15.step; return 0
   | ["C04"] => loop stdin stdout C04.step; return 0
